@@ -76,4 +76,13 @@ TEXT.update({
         note="Trusted: Lean kernel + 3 standard axioms; critical-section atomicity and goroutine scheduling modelled; tie = acceptance of this run's concurrent event logs by the LTS.",
         technique="Lean 4 proof (inductive invariant over an LTS with unbounded worker population) + concurrent trace acceptance"),
 })
+TEXT.update({
+    "C17": dict(
+        text="Lean theorems for every reachable state of the Worker transition system (any number of holders, any interleaving of Do/done with the watcher and the "
+             "function): at most one live function instance; while any done function is outstanding an instance exists, runs and its stop channel is open; stop is closed "
+             "only when no holder is outstanding; a Do cannot run while the instance is stopping and the next Do after the watcher finished starts a fresh instance; with no "
+             "holder left the system is never stuck before the instance is gone. Tied by concurrent trace acceptance of hook events.",
+        note="Trusted: Lean kernel + 3 standard axioms; WaitGroup/mutex/channel-close semantics modelled; the function is assumed to return only after stop is closed; tie = acceptance of this run's event logs.",
+        technique="Lean 4 proof (8-clause inductive invariant over an LTS with unbounded holders) + concurrent trace acceptance"),
+})
 NOT_YET = {}
